@@ -26,7 +26,7 @@ CLAIMED = {
           "proof for all functions and maps in the three representations; tie by exhaustive small maps incl. foreign keys, mutual references, fresh variables", "C08"),
  "C09": C("Coq theorems (essential inputs = variables the function depends on, three algorithms; support = dependence by canonicity) + differential correspondence",
           "proof for all objects; tie by all functions of <= 3 (4) variables with padded inessential inputs in every position", "C09"),
- "C10": C("Coq theorems (domain = all points once in value order; image, relation, support, weight, sat point characterised; codec) + differential correspondence",
+ "C10": C("Coq theorems (domain = all points once in value order; image, relation, support, weight, sat point characterised; codec; the iterator structs as state machines refine these lists call by call, incl. nth/count/last on partly consumed iterators) + differential correspondence",
           "proof for all objects of the three representations (diagram weight and sat point: correspondence only); tie by all functions of <= 3 (4) variables", "C10"),
  "C11": C("Coq theorems (nnf/cnf/dnf preserve the function, add no variables, have the promised shape; predicates = reference shapes) + differential correspondence",
           "proof for all expression trees; tie by all trees up to a size bound, returned tree compared structurally", "C11"),
